@@ -1491,7 +1491,8 @@ rv = .false.
             if c_ast.template_arguments:
                 # If a template, use its type
                 ntypemap = c_ast.template_arguments[0].typemap
-                fmt.cxx_T = ntypemap.name
+                fmt.cxx_T = ntypemap.cxx_type
+                fmt.flat_T = ntypemap.flat_name
         if ntypemap.f_kind:
             fmt.f_kind = ntypemap.f_kind
         fmt.f_type = ntypemap.f_type
